@@ -316,19 +316,30 @@ def adjoint_contract(
 
 @adjoint_ops.register(Cat, AssociativeOp, AssociativeOp, Funsor, str, tuple, str)
 def adjoint_cat(adj_sum_op, adj_prod_op, out_adj, name, parts, part_name):
-    if name not in out_adj.inputs:
-        return tuple((part, out_adj) for part in parts)
     in_adjs = []
     start = 0
     size = sum(part.inputs[part_name].dtype for part in parts)
     for i, part in enumerate(parts):
-        # the slice of out_adj covered by this part, indexed by the part's own name
-        part_slice = Slice(
-            part_name, start, start + part.inputs[part_name].dtype, 1, size
-        )
-        part_adj = out_adj(**{name: part_slice})
+        stop = start + part.inputs[part_name].dtype
+        if name in out_adj.inputs:
+            # the slice of out_adj covered by this part, indexed by the part's own name
+            part_adj = out_adj(**{name: Slice(part_name, start, stop, 1, size)})
+        else:
+            part_adj = out_adj
+        # Cat broadcasts a part over the inputs that only other parts have: they
+        # must appear in the message so that the tape sums over them.
+        for other in parts:
+            missing = other.input_vars - part_adj.input_vars - part.input_vars
+            if any(v.name != part_name and v.dtype != "real" for v in missing):
+                part_adj = _expand_like(
+                    adj_sum_op,
+                    adj_prod_op,
+                    part_adj,
+                    part,
+                    other.reduce(adj_sum_op, part_name),
+                )
         in_adjs.append((part, part_adj))
-        start += part.inputs[part_name].dtype
+        start = stop
     return tuple(in_adjs)
 
 
